@@ -77,7 +77,7 @@ def C40_full : Prop :=
 
 /-- Proved part: the literal reading holds whenever no one-bit field holds a value other than
 `0`/`1` (`False`/`True`) — hypothesis `oneBitNonBool fmt fields = false`, the decidable region
-predicate of known finding D40.1. -/
+predicate of known finding D40a. -/
 theorem C40_unpack_pack_masked_partial (fmt fields : List Int) (size : Option Int)
     (boolean rev : Bool) (b : List Byte) (H : oneBitNonBool fmt fields = false)
     (hp : packify fmt fields size rev = .ok b) :
@@ -90,7 +90,7 @@ theorem C40_unpack_pack_masked_partial (fmt fields : List Int) (size : Option In
 example : oneBitNonBool [1, 3, 2, 2] [1, 12, 0, -3] = false := by decide
 
 /-- The code (as documented) packs a one-bit field by truthiness: `packify("1 7", [2, 5])`
-unpacks to `(1, 5)`, masking would give `(0, 5)`.  Witness of known finding D40.1. -/
+unpacks to `(1, 5)`, masking would give `(0, 5)`.  Witness of known finding D40a. -/
 theorem C40_counterexample_onebit : ¬ C40_full := by
   intro h
   obtain ⟨b, hb⟩ := packify_succeeds [1, 7] [2, 5] none false 1 (by decide) (by decide) (by decide)
